@@ -460,13 +460,67 @@ def q2(prog, ctx, tag="Q2"):
             shifts = [s for s in body if any(isinstance(c, ast.Call) and (call_name(c) or "").startswith("shift_poly") for c in ast.walk(s))]
             if cuts and shifts and max(s.lineno for s in shifts) > min(s.lineno for s in cuts):
                 ctx.fail(tag, cuts[0], q, src(cuts[0]), "the exon list is cut before the tail position is moved onto the retained exon (shift_poly*)")
-    # correct_read_info never lets both counts consume all exons
+    # correct_read_info never lets both counts consume all exons: on every path where polyA count + polyT count == number of exons,
+    # both returned counts are one less than what the counters found
+    from ..engine import linform as _lf
     cf = prog.func("src/polya_verification.py", "PolyAFixer.correct_read_info")
-    t = src(cf)
-    if "polyt_exon_count + polya_exon_count == len(read_exons)" not in t or "polya_exon_count -= 1" not in t:
-        ctx.fail(tag, cf, cf._qualname, "all-exons guard", "guard against trimming every exon (count sum == len(read_exons)) is missing")
+    guarded = 0
+    problem = None
+    for pth in flow.paths(cf):
+        if pth.exit != "return" or pth.exit_node is None or not isinstance(pth.exit_node.value, ast.Tuple) or len(pth.exit_node.value.elts) != 2:
+            continue
+        if all(isinstance(e, ast.Constant) and e.value == 0 for e in pth.exit_node.value.elts):
+            continue                      # nothing is trimmed on this path
+        env = symexec.run_path(pth)
+        # the two counts as first computed on this path
+        first = {}
+        for ev in pth.events:
+            if ev[0] == "stmt" and isinstance(ev[1], ast.Assign) and len(ev[1].targets) == 1 and isinstance(ev[1].targets[0], ast.Name) \
+                    and isinstance(ev[1].value, ast.Call) and "count_poly" in (call_name(ev[1].value) or ""):
+                first.setdefault(ev[1].targets[0].id, ev[1].value)
+        if len(first) != 2:
+            problem = problem or "the two exon counts are not both computed on path %s" % pth.describe()[:80]
+            continue
+        total = None
+        sub = symexec.cond_substituter(pth)
+        for i, ev in enumerate(pth.events):
+            if ev[0] != "cond":
+                continue
+            for atom, pol in flow.conjuncts(ev[1], ev[2]):
+                if isinstance(atom, ast.Compare) and len(atom.ops) == 1 and isinstance(atom.ops[0], (ast.Eq, ast.NotEq)):
+                    d = dict(_lf.linform(sub(atom.left, i)))
+                    for k, v in _lf.linform(sub(atom.comparators[0], i)).items():
+                        d[k] = d.get(k, 0) - v
+                    d = {k: v for k, v in d.items() if v}
+                    want = {src(v): 1 for v in first.values()}
+                    want["len(%s)" % cf.args.args[1].arg] = -1
+                    if d == want or d == {k: -v for k, v in want.items()}:
+                        total = pol if isinstance(atom.ops[0], ast.Eq) else not pol
+        if total is None:
+            problem = problem or "a path returns without testing count sum == len(read_exons): %s" % pth.describe()[:80]
+            continue
+        ret = [symexec.subst(e, env) for e in pth.exit_node.value.elts]
+        diffs = []
+        for r in ret:
+            best = None
+            for nm, v in first.items():
+                d = dict(_lf.linform(r))
+                for k, c in _lf.linform(v).items():
+                    d[k] = d.get(k, 0) - c
+                d = {k: c for k, c in d.items() if c}
+                if set(d) <= {"1"}:
+                    best = d.get("1", 0)
+            diffs.append(best)
+        if total:
+            guarded += 1
+            if diffs != [-1, -1]:
+                problem = problem or "when all exons look like polyA/T the returned counts are %s relative to the found ones (must both be -1)" % diffs
+        elif diffs != [0, 0]:
+            problem = problem or "the counts are changed (%s) although not all exons are polyA/T" % diffs
+    if problem or guarded == 0:
+        ctx.fail(tag, cf, cf._qualname, "all-exons guard", "guard against trimming every exon is missing or wrong: %s" % (problem or "no path tests the sum"))
     else:
-        ctx.ok(tag, "src/polya_verification.py:%d" % cf.lineno, "guard against trimming all exons present")
+        ctx.ok(tag, "src/polya_verification.py:%d" % cf.lineno, "when polyA + polyT counts cover all exons both are reduced by one (path-wise)")
 
 
 # ---------------------------------------------------------------------------
